@@ -46,7 +46,7 @@ def cases(tier, rng, dist):
 
 
 def run(c):
-    x = np.array(c["x"], dtype=np.int64)
+    x = interned(np.array(c["x"], dtype=np.int64))
     x0 = x.copy()
     d = guarded(lambda: np.asarray(qa.find_duplicate_rows(x)).tolist())
     m1 = bool((x == x0).all())
